@@ -218,14 +218,14 @@ impl LuaTypeDecl {
     }
 }
 
-#[derive(Debug, Eq, PartialEq, Hash, Clone)]
+#[derive(Debug, Eq, PartialEq, PartialOrd, Ord, Hash, Clone)]
 pub enum LuaTypeIdentifier {
     Global(SmolStr),
     Internal(WorkspaceId, SmolStr),
     File(FileId, SmolStr),
 }
 
-#[derive(Debug, Eq, PartialEq, Hash, Clone)]
+#[derive(Debug, Eq, PartialEq, PartialOrd, Ord, Hash, Clone)]
 pub struct LuaTypeDeclId {
     id: ArcIntern<LuaTypeIdentifier>,
 }
